@@ -18,16 +18,21 @@ PROP = {'gen': [],
  'props_file': 'theories/Props/C18.v',
  'props_module': 'Props.C18',
  'corr_check': 'SNT.Corr.C18Corr.c18_check (models Keys/KeyMap.v, Keys/KeyParse.v vs surf_n_term::keys::{KeyMap, KeyMapHandler, Key, '
-               'KeyChord, KeyName}; property predicate = dictionary of chords reg/spec_lookup/spec_override/spec_handle, parser '
-               'no-panic and print-parse round trip on the implementation\'s own output)',
+               'KeyChord, KeyName}; property predicate = dictionary of chords reg/spec_lookup/spec_override, the matcher clauses '
+               'evaluated on the handle() stream, parser no-panic and print-parse round trip on the implementation\'s own output)',
  'level_text': 'Coq theorems over an executable model of KeyMap (trie of ordered association lists = BTreeMap) and of the key/chord '
-               'parsers and printers: for every registration history (incl. nested override merging) and every non-empty chord, lookup '
-               'equals lookup in the dictionary of chords built by reg c v d = (c,v) :: [entries of d unrelated to c]; Success / '
-               'Continue / Failure mean bound / proper prefix of a bound chord / neither; bound = registered and no related chord '
-               'registered since; for_each lists exactly the bound chords, each once; the stateful matcher equals the dictionary-level '
-               'matcher on every key sequence, fires a bound chord exactly at its last key from idle, and recovers after an unbound '
-               'key from any pending state; the parsers never panic and whatever they accept prints to a string that parses back to '
-               'the same value. Model tied to the code by a differential run over random histories and parser strings.',
+               'parsers and printers. For every map built by any combination of new / register / register_override / clear and every '
+               'non-empty chord, lookup equals lookup in the dictionary of chords built by reg c v d = (c,v) :: [entries of d unrelated '
+               'to c]; Success / Continue / Failure mean bound / proper prefix of a bound chord / neither; bound = registered and no '
+               'related chord registered since; for_each lists exactly the bound chords, each once. Stateful matcher (same maps): it '
+               'refines to the dictionary-level matcher on every key sequence; from idle a bound chord fires exactly at its last key; '
+               'it fires only bound chords; after an unbound key typed from idle the next chord fires. From an arbitrary pending state '
+               'the last clause is proved ONLY when the unbound key does not itself continue the pending chord (pending ++ [u] is not a '
+               'proper prefix of a bound chord): without that side condition the clause of the property text is FALSE of the code '
+               '(C18_matcher_never_prevents_refuted: bound a u c and c, typing a u c fires the three-key chord) and no repair exists; '
+               'that class is a known finding. The parsers never panic and whatever they accept prints to a string that parses back to '
+               'the same value. Model tied to the code by a differential run; the predicate evaluates the English clauses (fires at the '
+               'last key from idle / never prevents / only bound chords fire) directly on the stream of handle() answers.',
  'level_note': 'Trusted: Coq kernel + vm_compute; hand-written models validated by the correspondence run; str::to_lowercase is an '
                'oracle: the parser theorems hold for every function satisfying lower_spec (identity on ASCII strings without capitals; '
                'only strings beginning with f/F lower-case to something beginning with f), and each case checks these two facts on '
@@ -52,7 +57,8 @@ PROP = {'gen': [],
                   'specification: dictionary of chords (reg, spec_lookup, spec_override, spec_handle) written from the property text',
                   HARNESS],
  'assumptions': ['the empty chord is not a chord: registering it is a no-op (as in the code) and lookups of it are outside the statement',
-                 'an unbound key prevents nothing when it does not itself continue the pending chord (st ++ [u] is not a proper prefix '
-                 'of a bound chord); from the idle state this always holds',
+                 'KNOWN FINDING (class unbound-key-continues-pending-chord): "an unbound key never prevents the next chord" is proved '
+                 'only when pending ++ [u] is not a proper prefix of a bound chord; from the idle state this always holds; in the '
+                 'class the clause is false of the code and of any matcher that fires multi-key chords at their last key',
                  '64-bit target: usize = u64',
                  'str::to_lowercase satisfies lower_spec']}
